@@ -332,7 +332,7 @@ macro_rules! lifetime_harness {
         }
     };
 }
-//@ob fn="rc_ref_cell_reference / Clone / Drop (RcRefCell)" at=src/reference.rs:425 clause="RcRefCell: target stays alive (no dead-object access, not destroyed) while any clone exists after the original is dropped; destroyed exactly once with the last clone"
+//@ob fn="rc_ref_cell_reference / Clone / Drop (RcRefCell)" at=src/reference.rs:425 prop=C17,C16 clause="RcRefCell: target stays alive (no dead-object access, not destroyed) while any clone exists after the original is dropped; destroyed exactly once with the last clone"
 lifetime_harness!(c17_rc_lifetime, rc_ref_cell_reference);
 
 // ------------------------------------------------------------------ PtrRwLock
@@ -504,7 +504,7 @@ fn c17_arc_rw_lock_count_into_inner() {
     assert!(*keep.read().unwrap() == v0);
     reach!();
 }
-//@ob fn="arc_rw_lock_reference / Clone / Drop (ArcRwLock)" at=src/reference.rs:478 clause="ArcRwLock: target stays alive (no dead-object access, not destroyed) while any clone exists after the original is dropped; destroyed exactly once with the last clone"
+//@ob fn="arc_rw_lock_reference / Clone / Drop (ArcRwLock)" at=src/reference.rs:478 prop=C17,C16 clause="ArcRwLock: target stays alive (no dead-object access, not destroyed) while any clone exists after the original is dropped; destroyed exactly once with the last clone"
 lifetime_harness!(c17_arc_rw_lock_lifetime, arc_rw_lock_reference);
 
 // ------------------------------------------------------------------ ArcMutex
@@ -558,7 +558,7 @@ fn c17_arc_mutex_count_into_inner() {
     assert!(*keep.lock().unwrap() == v0);
     reach!();
 }
-//@ob fn="arc_mutex_reference / Clone / Drop (ArcMutex)" at=src/reference.rs:487 clause="ArcMutex: target stays alive (no dead-object access, not destroyed) while any clone exists after the original is dropped; destroyed exactly once with the last clone"
+//@ob fn="arc_mutex_reference / Clone / Drop (ArcMutex)" at=src/reference.rs:487 prop=C17,C16 clause="ArcMutex: target stays alive (no dead-object access, not destroyed) while any clone exists after the original is dropped; destroyed exactly once with the last clone"
 lifetime_harness!(c17_arc_mutex_lifetime, arc_mutex_reference);
 
 // ------------------------------------------------------------------ to_dyn! expanded inside rrtk
@@ -668,4 +668,40 @@ fn c17_to_dyn_arc_mutex_unlisted_panics() {
     kani::cover!(true, "reach-before-conversion");
     let _d: Reference<dyn Tr> = to_dyn!(Tr, r);
     kani::cover!(true, "unreach: returned normally");
+}
+
+// ------------------------------------------------------------------ clone_from (the provided Clone method)
+//@ob fn="<Reference<T> as Clone>::clone_from" at=src/reference.rs:318 clause="a.clone_from(&b) makes a denote b's object, also for Ptr References to UNSIZED targets that start at the same address but differ in length (a slice and its prefix): afterwards a reads b's length and contents; b unchanged"
+#[kani::proof]
+fn c17_clone_from_takes_the_source_wide_pointer() {
+    let mut arr: [u8; 4] = kani::any();
+    let whole: *mut [u8] = &mut arr[..] as *mut [u8];
+    let prefix: *mut [u8] = core::ptr::slice_from_raw_parts_mut(arr.as_mut_ptr(), 2);
+    let mut a: Reference<[u8]> = unsafe { Reference::from_ptr(whole) };
+    let b: Reference<[u8]> = unsafe { Reference::from_ptr(prefix) };
+    assert!(a.borrow().len() == 4 && b.borrow().len() == 2);
+    a.clone_from(&b);
+    assert!(a.borrow().len() == 2);
+    assert!(b.borrow().len() == 2);
+    let x: u8 = kani::any();
+    a.borrow_mut()[1] = x;
+    assert!(b.borrow()[1] == x);
+    reach!();
+}
+
+//@ob fn="<Reference<T> as Clone>::clone_from" at=src/reference.rs:318 clause="a.clone_from(&b) for Rc-backed References: afterwards a and b are one object (a write through a is read through b), the object a denoted before is released"
+#[kani::proof]
+fn c17_clone_from_rc_rebinds() {
+    let v: u32 = kani::any();
+    let w: u32 = kani::any();
+    let mut a = rc_ref_cell_reference(v);
+    let keep_a = a.clone();
+    let b = rc_ref_cell_reference(w);
+    a.clone_from(&b);
+    assert!(*a.borrow() == w);
+    let x: u32 = kani::any();
+    *a.borrow_mut() = x;
+    assert!(*b.borrow() == x);
+    assert!(*keep_a.borrow() == v);
+    reach!();
 }
